@@ -2942,6 +2942,9 @@ func (m *Machine) IsTime(t Time, states S) bool {
 	}
 
 	for i, tick := range t {
+		if i >= len(states) {
+			break
+		}
 		if m.clock[states[i]] != tick {
 			return false
 		}
@@ -2965,6 +2968,9 @@ func (m *Machine) WasTime(t Time, states S) bool {
 	}
 
 	for i, tick := range t {
+		if i >= len(states) {
+			break
+		}
 		if m.clock[states[i]] < tick {
 			return false
 		}
